@@ -68,16 +68,16 @@ _STATIC = {
     "C04": "certificates of the stable / complete / grounded solvers appear exactly when promised, are extensions, contain / omit the queried argument and consist of the framework's own argument objects",
     "C06": "on one solver object the same query with and without certificate, repeated and in different orders, gives the reference status each time; the complete solver gives one status for the aux_var, exp and hybrid encodings; the framework is unchanged by querying (stable, complete, grounded solvers)",
     "C07": "queries over every ordered pair of arguments are answered as disjunctions, with and without certificate (complete, stable, grounded solvers; cross-component case at 3 arguments)",
-    "C16": "clause (a) only: no SAT call of the stable / complete solvers carries an assumption on a variable above n_vars(), i.e. the DIMACS header written by BufferedSatSolver covers the instance",
+    "C16": "clause (a): no SAT call of the stable / complete solvers carries an assumption on a variable above n_vars(), i.e. the DIMACS header written by BufferedSatSolver covers the instance; reply clause, final verdict only: the `match status` table at the end of the reply parser, re-extracted from the source and decided by z3 over all combinations of the facts it reads, reports a model only with `s SATISFIABLE` + a value line + the terminating 0 and UNSATISFIABLE only with its status line (counterexamples replayed through the real parser)",
     "C17": "when the k-th SAT call (k symbolic) of a stable / complete query returns Unknown, or when the backend of a preferred / semi-stable / stage / ideal query is dead from the first call on, the query never returns a status or an extension (it aborts by the panic of unwrap_model, which is checked on the real function by its own harness)",
     "C18": "the stable and complete solvers make at most two SAT calls per solver instance (= per connected component)",
 }
 for _p, _t in _STATIC.items():
     CHECKS[_p] = dict(
         category="model_checking",
-        technique="Kani/CBMC bounded model checking of the real solver code with a demonic SAT oracle (symbolic model choices), concrete small frameworks",
+        technique="Kani/CBMC bounded model checking of the real solver code with a demonic SAT oracle (symbolic model choices), concrete small frameworks" + ("; z3 on the source-extracted verdict table of the reply parser" if _p == "C16" else ""),
         text=_t + ". Each harness is one CBMC query over the compiled MIR of the working tree; a failed assertion is reported only after native reproduction.",
-        note=_STATIC_NOTE + (" For C06 the clause about the two real backends (embedded CaDiCaL / external process) is outside: the oracle stands for every backend honouring the SatSolver contract, that the real ones honour it is C15." if _p == "C06" else "") + (" For C16 the reply parser and the 'cannot hang' clause, for C17 the external reply kinds and the exit status, for C18 the PR/ID/SST/STG bounds are outside." if _p in ("C16", "C17", "C18") else ""),
+        note=_STATIC_NOTE + (" For C06 the clause about the two real backends (embedded CaDiCaL / external process) is outside: the oracle stands for every backend honouring the SatSolver contract, that the real ones honour it is C15." if _p == "C06" else "") + (" For C16 the tokenisation of the reply (line classification, literal parsing; only the final verdict table is decided) and the 'cannot hang' clause, for C17 the external reply kinds and the exit status, for C18 the PR/ID/SST/STG bounds are outside." if _p in ("C16", "C17", "C18") else ""),
         design="DESIGN.md sections 3.3, 3.4, 4")
 CHECKS["C14"] = dict(
     category="model_checking",
